@@ -20,6 +20,9 @@ class Executor(Ops2):
         self.pkg_models = dict(models.PKG_MODELS)
         self.iface_models = dict(models.IFACE_MODELS)
         self.stubs = {}
+        self.noop_prefixes = tuple(self.opts.get('_noops') or ())
+        for it in (self.opts.get('_noopifaces') or ()):
+            self.iface_models[it] = models.iface_noop
         self.api_call = lambda ex, st, args, ins, fn: models.api_call(ex, st, args, ins, fn)
         self.lenient = False
         self.initing = []
@@ -65,6 +68,9 @@ class Executor(Ops2):
                 self.end_path(st, pe.kind, pe.info)
                 return
             self.stats['forks'] += 1
+            if self.opts.get('fork_sites') is not None:
+                w = self.where(st)
+                self.opts['fork_sites'][w] = self.opts['fork_sites'].get(w, 0) + 1
             base_dec = st.decisions[:st.dpos]
             st.pending_known = []
             n = len(nf.feas)
@@ -86,6 +92,10 @@ class Executor(Ops2):
             self.end_path(st, pe.kind, pe.info)
         except Unsupported as u:
             self.end_path(st, 'unsupported', str(u) + self.where(st))
+        except (TypeError, IndexError, AttributeError, KeyError, ValueError) as e:
+            import traceback
+            tb = traceback.format_exc().strip().splitlines()
+            self.end_path(st, 'engine-error', '%s: %s%s | %s' % (type(e).__name__, e, self.where(st), ' / '.join(x.strip() for x in tb[-6:-1])))
 
     def where(self, st):
         if not st.frames:
